@@ -66,6 +66,7 @@ class C16(Spec):
         cases.append({"kind": "nullstr", "text": "abc", "off": 0, "len": 0})
         # utf8, exhaustive up to length 2 (thorough: 3)
         cases.append({"kind": "utf8", "bytes": []})
+        cases.append({"kind": "utf8_null", "bytes": []})
         cases.append({"kind": "utf8_last", "prefix": []})
         for a in range(256):
             cases.append({"kind": "utf8_last", "prefix": [a]})
@@ -97,7 +98,7 @@ class C16(Spec):
 
     def direct_check(self, case, out):
         k = case["kind"]
-        if k == "utf8":
+        if k in ("utf8", "utf8_null"):
             if out["valid"] != py_valid(case["bytes"]):
                 return f"diplomat_is_str({bytes(case['bytes'])!r}) = {out['valid']}, but the string is {'valid' if not out['valid'] else 'not valid'} UTF-8"
             return None
@@ -127,7 +128,7 @@ class C16(Spec):
 
     def goal_of(self, case, out):
         k = case["kind"]
-        if k == "utf8":
+        if k in ("utf8", "utf8_null"):
             return f"Bool.eqb (utf8_valid {cbytes(case['bytes'])}) {cbool(out['valid'])}"
         if k == "utf8_last":
             return f"agree_last {cbytes(case['prefix'])} {cbytes(out['accept'])}"
@@ -148,6 +149,8 @@ class C16(Spec):
 
     def nontrivial_key(self, case, out):
         k = case["kind"]
+        if k == "utf8_null":
+            return ("null",)
         if k == "utf8":
             return ("u", tuple(case["bytes"])) if any(b >= 0x80 for b in case["bytes"]) else None
         if k == "utf8_last":
